@@ -40,7 +40,31 @@ type history struct {
 
 // definition kinds: source of the successful evaluation that defines it, the
 // expression a later Eval uses, the expression whose value the host keeps.
+// blocking definitions wait for a value before they count: every call makes its own channel
+// and its own feeder goroutine (so that a goroutine left behind by a cancelled call cannot take
+// the value of a later one); the feeder is slow when the package variable slow<X> is set, which
+// is what the cancelled evaluation does before it calls the definition. feed is evaluated
+// before a use and makes the feeder fast again.
+var feed = map[string]string{
+	"selfn":  "slowSel = false",
+	"sel2fn": "slowSel2 = false",
+	"recvfn": "slowRecv = false",
+}
+
+var slowCall = map[string]string{
+	"selfn":  "slowSel = true\nIncSel()",
+	"sel2fn": "slowSel2 = true\nIncSel2()",
+	"recvfn": "slowRecv = true\nIncRecv()",
+}
+
+func blockingDef(name, flag, counter, wait string) string {
+	return "var " + flag + " bool\nvar " + counter + " int\nvar idle" + name + " = make(chan int)\nfunc " + name + "() int {\n\tc := make(chan int)\n\td := 2 * time.Millisecond\n\tif " + flag + " {\n\t\td = time.Hour\n\t}\n\tgo func() {\n\t\ttime.Sleep(d)\n\t\tc <- 1\n\t}()\n" + wait + "\treturn " + counter + "\n}"
+}
+
 var defs = map[string]struct{ src, call, value string }{
+	"selfn":   {blockingDef("IncSel", "slowSel", "cSel", "\tselect {\n\tcase v := <-c:\n\t\tcSel += v\n\t}\n"), "IncSel()", "IncSel"},
+	"sel2fn":  {blockingDef("IncSel2", "slowSel2", "cSel2", "\tselect {\n\tcase v := <-c:\n\t\tcSel2 += v\n\tcase v := <-idleIncSel2:\n\t\tcSel2 -= v\n\t}\n"), "IncSel2()", "IncSel2"},
+	"recvfn":  {blockingDef("IncRecv", "slowRecv", "cRecv", "\tv := <-c\n\tcRecv += v\n"), "IncRecv()", "IncRecv"},
 	"func":    {"var cFunc int\nfunc IncFunc() int { cFunc++; return cFunc }", "IncFunc()", "IncFunc"},
 	"method":  {"type TM struct{ n int }\nfunc (t *TM) Inc() int { t.n++; return t.n }\nvar tm = &TM{}", "tm.Inc()", "tm.Inc"},
 	"closure": {"var clo = func() func() int { c := 0; return func() int { c++; return c } }()", "clo()", "clo"},
@@ -79,6 +103,10 @@ func replay(h history) (o obs) {
 	host := map[string]func() int{}
 	kinds := append([]string(nil), h.Kinds...)
 	sort.Strings(kinds)
+	if _, err := i.Eval("import \"time\""); err != nil { // for the blocking definitions; imported once
+		o.Setup = "import time: " + err.Error()
+		return
+	}
 	for _, k := range kinds {
 		d := defs[k]
 		if _, err := i.Eval(d.src); err != nil {
@@ -117,7 +145,11 @@ func replay(h history) (o obs) {
 					cancel()
 				}()
 			}
-			_, err := i.EvalWithContext(ctx, cancelled[s.What])
+			prog := cancelled[s.What]
+			if s.What == "indef" {
+				prog = slowCall[s.Kind] // the feeder is slow: the definition waits until the cancellation
+			}
+			_, err := i.EvalWithContext(ctx, prog)
 			cancel()
 			stepHook.Store(nil)
 			if err == nil && s.What != "expired" {
@@ -135,6 +167,12 @@ func replay(h history) (o obs) {
 		}
 		var got int
 		var err error
+		if f := feed[s.Kind]; f != "" {
+			if _, ferr := i.Eval(f); ferr != nil {
+				o.Step, o.Err = n+1, "feeding "+s.Kind+": "+firstLine(ferr.Error())
+				return
+			}
+		}
 		done := make(chan struct{})
 		go func() {
 			defer close(done)
@@ -253,7 +291,7 @@ func run(c *fw.Ctx) error {
 				all = append(all, h)
 			}
 		}
-		kinds := []string{"func", "method", "closure", "mvalue", "litfunc", "chanfn"}
+		kinds := []string{"func", "method", "closure", "mvalue", "litfunc", "chanfn", "selfn", "sel2fn", "recvfn"}
 		maxLen := c.Pick(3, 4)
 		for _, k := range kinds {
 			cfg := fmt.Sprintf("SPECIFICATION Spec\nCONSTANTS Kinds = {%q} MaxLen = %d AllowAfterCancel = TRUE\nINVARIANTS UsesCountUp Emit\nPROPERTIES CancelIsStutter\n", k, maxLen)
@@ -268,7 +306,7 @@ func run(c *fw.Ctx) error {
 		// seeded simulation: all kinds together, longer histories, known-fragile uses excluded
 		nsim := c.Pick(150, 3000)
 		simCfg := `SPECIFICATION SpecSim
-CONSTANTS Kinds = {"func", "method", "closure", "mvalue", "litfunc", "chanfn"} MaxLen = 10 AllowAfterCancel = FALSE
+CONSTANTS Kinds = {"func", "method", "closure", "mvalue", "litfunc", "chanfn", "selfn", "sel2fn", "recvfn"} MaxLen = 10 AllowAfterCancel = FALSE
 INVARIANTS UsesCountUp Emit
 `
 		before := len(all)
